@@ -12,9 +12,10 @@ bytes with comment lines, and on corrupted / truncated bytes.
 A *file* is any interleaving of written records, comment lines (`#…`) and blank lines (`Tsv.Item`), each followed
 by LF.  Domain (hypotheses `BedOk`, `GffOk`, `AttrsOk`): the text columns (chrom and every optional BED column;
 seqname, source, type, score, strand of GFF) are **arbitrary byte strings** — `"`, TAB, CR, LF, backslash, `#`,
-blanks, empty — with one exception the real writer/reader pair does not round-trip either: a first column that
-starts with `#` and contains none of TAB, `"`, CR, LF is written unquoted and read as a comment (`hashStart`;
-finding `C13-hash-start-record`).  Coordinates fit `u64`, phase ∈ {`.`,0,1,2}; attribute keys and values are
+blanks, empty — with one exception: a first column that starts with `#` and contains none of TAB, `"`, CR, LF is
+written unquoted, and a line that begins with `#` is a comment line of the format ("comment lines are skipped"), so
+such a record has no representation in the format (`hashStart`; domain boundary, also of the real writer/reader).
+A first column that starts with `#` but is quoted by the writer is inside the domain.  Coordinates fit `u64`, phase ∈ {`.`,0,1,2}; attribute keys and values are
 non-empty, avoid the dialect's delimiters and TAB, carry no quote character at either end, keys do not start with a
 blank.
 -/
